@@ -205,6 +205,31 @@ def r3_single_writer(ctx: Ctx) -> None:
                         ctx.count("line_counter_writes")
                         ctx.check(fn.fq in ("a816.parse.scanner:Scanner.__init__", "a816.parse.scanner:Scanner._handle_line"), f"{fn.where}:{unparse(n)[:40]}", "line counters have one writer")
     ctx.floor("handle_line_calls", 3)
+    # the cursor moves only through primitives that account for lines: next() (calls _handle_line on a newline), backup(),
+    # accept_prefix(<literal without newline>), the 3-letter mnemonic skip and the look-ahead restore in lex_opcode
+    allowed_pos = {"a816.parse.scanner:Scanner.next", "a816.parse.scanner:Scanner.backup", "a816.parse.scanner:Scanner.accept_prefix",
+                   "a816.parse.scanner_states:accept_opcode", "a816.parse.scanner_states:lex_opcode"}
+    for fn in ctx.repo.all_functions():
+        if not fn.module.name.startswith("a816.parse.scanner"):
+            continue
+        for n in walk_no_nested(fn.node):
+            if isinstance(n, (ast.Assign, ast.AugAssign)):
+                tl = n.targets if isinstance(n, ast.Assign) else [n.target]
+                for t in tl:
+                    if isinstance(t, ast.Attribute) and t.attr == "pos" and unparse(t.value) in ("s", "self") and (unparse(t.value) == "s" or (fn.cls and fn.cls.name == "Scanner")):
+                        ctx.count("cursor_writes")
+                        ctx.check(fn.fq in allowed_pos, f"{fn.where}:{unparse(n)[:40]}", "the scanner cursor is moved directly; characters skipped this way (newlines among them) bypass "
+                                  "the line bookkeeping in next(), so later errors are reported on the wrong line")
+        for c in calls_in(fn.node):
+            if (call_name(c) or "").endswith(".accept_prefix") and c.args:
+                lit = const_str(c.args[0])
+                ctx.check(lit is not None and "\n" not in lit, f"{fn.where}:{unparse(c)[:40]}", "accept_prefix skips its literal without line accounting: the literal must not contain a newline")
+    ctx.floor("cursor_writes", 5)
+    lo = ctx.repo.func(SST, "lex_opcode")
+    restores = [n for n in walk_no_nested(lo.node) if isinstance(n, ast.Assign) and unparse(n.targets[0]) == "s.pos"]
+    snaps = [n for n in walk_no_nested(lo.node) if isinstance(n, ast.Assign) and unparse(n.value) == "s.pos"]
+    ok = bool(snaps) and all(unparse(r.value) == unparse(snaps[0].targets[0]) for r in restores)
+    ctx.check(ok, "lex_opcode:restore", "the cursor is only ever restored to a snapshot taken in the same function (look-ahead), never advanced by assignment")
     nx = ctx.repo.func(SCN, "Scanner.next")
     ok = any(isinstance(s, ast.If) and unparse(s.test) == "data == '\\n'" and [unparse(b) for b in s.body] == ["self._handle_line()"] for s in walk_no_nested(nx.node))
     ctx.check(ok, "Scanner.next:newline", "a consumed newline closes the line")
